@@ -34,6 +34,12 @@ type Violation struct {
 
 func (v *Violation) Sig() string { return v.Harness + "|" + v.Kind + "|" + v.Label }
 
+type oblNote struct {
+	sig string
+	res Res
+	who string
+}
+
 type frame struct {
 	fn     *ssa.Function
 	locals map[ssa.Value]Value
@@ -80,6 +86,12 @@ type Exec struct {
 	onceDone     map[Node]bool
 	lastNow      *Term
 	choiceVals   map[string]uint64
+	scratch      bool
+	pendingNotes []oblNote
+	bounds       map[int]rng
+	rngMemo      map[int]rng
+	factJournal  *[]int
+	accelSeq     int
 	harnessFn    *ssa.Function
 }
 
@@ -114,7 +126,7 @@ func (ex *Exec) addPC(c *Term) {
 		return
 	}
 	ex.pc = append(ex.pc, c)
-	ex.facts[c.id] = true
+	ex.learn(c)
 }
 
 func (ex *Exec) known(c *Term) (val bool, ok bool) {
@@ -129,6 +141,9 @@ func (ex *Exec) known(c *Term) (val bool, ok bool) {
 	}
 	if ex.facts[ex.tf.BNot(c).id] {
 		return false, true
+	}
+	if v, ok := ex.rangeDecide(c); ok {
+		return v, true
 	}
 	return false, false
 }
@@ -191,6 +206,9 @@ func (ex *Exec) branch(c *Term) bool {
 	if v, ok := ex.known(c); ok {
 		return v
 	}
+	if ex.scratch {
+		panic(accelBail{"symbolic branch in accelerated iteration"})
+	}
 	nc := ex.tf.BNot(c)
 	if len(ex.decs) < len(ex.prefix) {
 		d := ex.prefix[len(ex.decs)]
@@ -203,16 +221,19 @@ func (ex *Exec) branch(c *Term) bool {
 			ex.addPC(nc)
 			return false
 		case 3: // forced true
-			ex.facts[c.id] = true
+			ex.learn(c)
 			return true
 		case 2:
-			ex.facts[nc.id] = true
+			ex.learn(nc)
 			return false
 		}
 		panic("bad decision")
 	}
 	ft := ex.feasible(c)
-	ff := ex.feasible(nc)
+	ff := true // the path condition is feasible, so if c is impossible its negation is possible
+	if ft {
+		ff = ex.feasible(nc)
+	}
 	switch {
 	case ft && ff:
 		alt := append(append([]int{}, ex.decs...), 0)
@@ -222,11 +243,11 @@ func (ex *Exec) branch(c *Term) bool {
 		return true
 	case ft:
 		ex.decs = append(ex.decs, 3)
-		ex.facts[c.id] = true
+		ex.learn(c)
 		return true
 	case ff:
 		ex.decs = append(ex.decs, 2)
-		ex.facts[nc.id] = true
+		ex.learn(nc)
 		return false
 	}
 	panic(pathEnd{"infeasible"})
@@ -236,6 +257,9 @@ func (ex *Exec) branch(c *Term) bool {
 func (ex *Exec) choice(n int) int {
 	if n <= 1 {
 		return 0
+	}
+	if ex.scratch {
+		panic(accelBail{"choice in accelerated iteration"})
 	}
 	if len(ex.decs) < len(ex.prefix) {
 		d := ex.prefix[len(ex.decs)]
@@ -270,10 +294,14 @@ func (ex *Exec) require(cond *Term, kind, label, detail string) {
 	nc := ex.tf.BNot(cond)
 	sig := ex.harness + "|" + kind + "|" + label
 	res, model, who := ex.decideObligation(nc)
-	ex.eng.noteObligation(sig, res, who)
+	if ex.scratch {
+		ex.pendingNotes = append(ex.pendingNotes, oblNote{sig, res, who})
+	} else {
+		ex.eng.noteObligation(sig, res, who)
+	}
 	switch res {
 	case Unsat:
-		ex.facts[cond.id] = true
+		ex.learn(cond)
 		return
 	case Unknown:
 		ex.eng.inconclusive(fmt.Sprintf("%s: obligation %s %s undecided (solver unknown/timeout)", ex.harness, kind, label))
@@ -304,31 +332,14 @@ func (ex *Exec) decideObligation(nc *Term) (Res, *Model, string) {
 		return Unsat, nil, "cache"
 	}
 	r, m := ex.solver.Check(ex.pc, nc, true)
-	who := "z3-incremental"
+	who := ex.solver.lastWho
 	st.mu.Lock()
 	st.Assertion++
 	st.mu.Unlock()
-	if r == Unknown {
-		to := 60 * time.Second
-		if ex.eng.tier == "thorough" {
-			to = 300 * time.Second
-		}
-		r, who = Portfolio(ex.pc, nc, to, false, st)
-		if r == Sat {
-			// need a model: ask the incremental solver again with a long timeout
-			old := ex.solver.timeout
-			ex.solver.timeout = int(to / time.Millisecond)
-			var r2 Res
-			r2, m = ex.solver.Check(ex.pc, nc, true)
-			ex.solver.timeout = old
-			if r2 != Sat {
-				m = nil
-			}
-		}
-	} else if ex.eng.tier == "thorough" && ex.eng.crossCheck {
+	if r != Unknown && ex.eng.tier == "thorough" && ex.eng.crossCheck {
 		r2, who2 := Portfolio(ex.pc, nc, 300*time.Second, true, st)
 		if r2 != Unknown && r2 != r {
-			fmt.Fprintf(os.Stderr, "SOLVER DISAGREEMENT incremental=%v portfolio(%s)=%v\n", r, who2, r2)
+			fmt.Fprintf(os.Stderr, "SOLVER DISAGREEMENT %s=%v portfolio(%s)=%v\n", who, r, who2, r2)
 			r = Unknown
 		}
 	}
@@ -461,6 +472,7 @@ func (ex *Exec) call(fn *ssa.Function, args []Value, bind []Value) Value {
 	}
 	var prev *ssa.BasicBlock
 	block := fn.Blocks[0]
+	skipPhis := false
 	for {
 		fr.visits[block]++
 		if fr.visits[block] > ex.eng.maxVisits {
@@ -473,6 +485,8 @@ func (ex *Exec) call(fn *ssa.Function, args []Value, bind []Value) Value {
 			}
 		}
 		var next *ssa.BasicBlock
+		phisDone := skipPhis
+		skipPhis = false
 		for _, ins := range block.Instrs {
 			ex.steps++
 			if ex.steps > ex.eng.maxSteps {
@@ -483,6 +497,9 @@ func (ex *Exec) call(fn *ssa.Function, args []Value, bind []Value) Value {
 			}
 			switch ins := ins.(type) {
 			case *ssa.Phi:
+				if phisDone {
+					continue
+				}
 				idx := -1
 				for i, p := range block.Preds {
 					if p == prev {
@@ -499,6 +516,15 @@ func (ex *Exec) call(fn *ssa.Function, args []Value, bind []Value) Value {
 						fr.symDec[block]++
 						if fr.symDec[block] > ex.unwind {
 							panic(unsupported{fmt.Sprintf("unwinding bound %d exceeded at %s (%s)", ex.unwind, ex.posStr(ex.curPos), fn.String())})
+						}
+					}
+				}
+				if !c.IsConst() {
+					if _, ok := ex.known(c); !ok {
+						if j, ok := ex.tryIfConv(fr, block, c); ok {
+							next = j
+							skipPhis = true
+							break
 						}
 					}
 				}
@@ -1208,7 +1234,7 @@ func (ex *Exec) iterNext(it *IterV, ins *ssa.Next) Value {
 				if ex.feasible(tf.BNot(ascii)) {
 					panic(unsupported{"range over symbolic string that may contain non-ASCII bytes at " + ex.posStr(ex.curPos)})
 				}
-				ex.facts[ascii.id] = true
+				ex.learn(ascii)
 			}
 		}
 		it.Pos++
@@ -1251,6 +1277,13 @@ func (ex *Exec) binop(op token.Token, x, y Value, xt types.Type, pos token.Pos) 
 		case token.QUO, token.REM:
 			ex.require(tf.BNot(tf.Eq(B, tf.Const(B.w, 0))), "div", ex.posStr(ex.curPos), "integer divide by zero")
 			if signed {
+				if B.IsConst() && B.SVal() > 0 && B.val&(B.val-1) == 0 && ex.rangeOf(A).lo >= 0 {
+					// non-negative dividend, power-of-two divisor: shift / mask
+					if op == token.QUO {
+						return IntV{tf.UDiv(A, B)}
+					}
+					return IntV{tf.URem(A, B)}
+				}
 				if op == token.QUO {
 					return IntV{tf.SDiv(A, B)}
 				}
@@ -1286,6 +1319,11 @@ func (ex *Exec) binop(op token.Token, x, y Value, xt types.Type, pos token.Pos) 
 				return IntV{tf.AShr(A, cnt)}
 			}
 			return IntV{tf.LShr(A, cnt)}
+		}
+		if op == token.EQL || op == token.NEQ || op == token.LSS || op == token.LEQ || op == token.GTR || op == token.GEQ {
+			A, B = ex.unExtractPair(A, B, signed)
+		}
+		switch op {
 		case token.EQL:
 			return BoolV{tf.Eq(A, B)}
 		case token.NEQ:
@@ -1433,6 +1471,9 @@ func (ex *Exec) convert(v Value, from, to types.Type) Value {
 			if w <= x.T.w {
 				return IntV{tf.Extract(x.T, w-1, 0)}
 			}
+			if in := ex.unExtract(x.T, w, fs); in != nil {
+				return IntV{in}
+			}
 			if fs {
 				return IntV{tf.SExt(x.T, w)}
 			}
@@ -1555,7 +1596,7 @@ func (ex *Exec) builtin(b *ssa.Builtin, args []Value, argTypes []types.Type) Val
 				}
 			}
 			// fork instead of ite: keeps per-path terms small
-			if ex.eng.forkMinMax {
+			if ex.eng.forkMinMax && !ex.scratch {
 				if ex.branch(c) {
 					r = y
 				}
@@ -1770,4 +1811,54 @@ func (ex *Exec) copyChoices() map[string]uint64 {
 
 func (ex *Exec) harnessDir() string {
 	return filepath.Dir(ex.prog.Fset.Position(ex.harnessFn.Pos()).Filename)
+}
+
+// learn records a fact implied by the path condition.
+func (ex *Exec) learn(c *Term) {
+	ex.setFact(c.id)
+	ex.noteBound(c)
+}
+
+// unExtract: t = extract[k-1:0](inner) with inner of width w whose value provably fits k bits
+// (signed or unsigned as requested) -> inner; nil otherwise.
+func (ex *Exec) unExtract(t *Term, w int, signed bool) *Term {
+	if t.op != OpExtract || t.extra&0xff != 0 || t.args[0].w != w {
+		return nil
+	}
+	in := t.args[0]
+	r := ex.rangeOf(in)
+	if signed {
+		if r.within(fullRange(t.w)) {
+			return in
+		}
+		return nil
+	}
+	if r.lo >= 0 && (t.w >= 63 || r.hi <= int64(mask(t.w))) {
+		return in
+	}
+	return nil
+}
+
+// unExtractPair lifts a comparison between two truncated values to the wide values when both fit.
+func (ex *Exec) unExtractPair(a, b *Term, signed bool) (*Term, *Term) {
+	if a.w >= 64 {
+		return a, b
+	}
+	lift := func(t *Term) *Term {
+		if t.IsConst() {
+			if signed {
+				return ex.tf.Const(64, uint64(t.SVal()))
+			}
+			return ex.tf.Const(64, t.val)
+		}
+		return ex.unExtract(t, 64, signed)
+	}
+	if a.IsConst() && b.IsConst() {
+		return a, b
+	}
+	la, lb := lift(a), lift(b)
+	if la != nil && lb != nil {
+		return la, lb
+	}
+	return a, b
 }
